@@ -290,6 +290,57 @@ def run_c19(ctx):
 RET_BUDGET = {"quick": 360, "thorough": 6000}
 
 
+def nolock_returns_stage(ctx):
+    """C14: 'a configured return that cannot be produced in the current feature set fails at construction', over
+    composite return types in the no_std build without a lock (generated programs, single-use paths)."""
+    import retgen
+    accepted = [retgen.to_tuple(t) for t in json.load(open(os.path.join(common.ROOT, "gen", "accepted", "returns.json")))]
+    rng = random.Random(ctx.seed * 31 + 14)
+    with_ref = [t for t in accepted if retgen.has_ref(t)]
+    ownable = [t for t in with_ref if retgen.can_own(t)]
+    n = 120 if ctx.tier == "quick" else 1200
+    cases = []
+    k = 0
+    while len(cases) < n:
+        if k % 2 == 0:
+            t = ownable[(k // 2 + ctx.seed) % len(ownable)]
+            v = retgen.gen_value(t, rng, retgen.Counter(), force="owned")
+        else:
+            t = with_ref[(k // 2 + ctx.seed) % len(with_ref)]
+            v = retgen.gen_value(t, rng, retgen.Counter(), force=("first" if k % 4 == 1 else None))
+        cases.append((t, v, "some" if k % 3 else "once"))
+        k += 1
+    modules, exps = [], {}
+    for i, (t, v, mode) in enumerate(cases):
+        text, exp = retgen.render_nolock(t, v, mode, i)
+        modules.append((i, text))
+        exps[i] = exp
+    events, errors, st = engine_b.build_and_run(
+        ctx, "nolock_returns", modules, features=("critical-section",),
+        extra_deps='critical-section = { version = "1.1.2", features = ["std"] }', per_crate=60)
+    refused = accepted_n = 0
+    for i, (t, v, mode) in enumerate(cases):
+        if i in errors:
+            ctx.violation(f"retgen:nolock:expansion-error:{json.dumps(t)}", {
+                "what": "a generated program of the calibrated grammar no longer compiles (no_std without a lock)",
+                "at": f"case {i}", "case": exps[i]["type"], "expected": "compiles", "observed": "; ".join(errors[i])[:600]})
+            continue
+        why = retgen.check_nolock(exps[i], events.get(i, []))
+        if exps[i]["owned_leaves"] > 0:
+            refused += 1
+        else:
+            accepted_n += 1
+        if why:
+            ctx.violation(f"retgen:nolock:{json.dumps([t, v, mode])}", {
+                "what": why, "at": f"case {i}",
+                "case": f"fn m(&self) -> {exps[i]['type']} configured {mode} with {exps[i]['value']} (no_std, no lock)",
+                "expected": "refused at construction iff the value has an owned part", "observed": why[:800]})
+    ctx.require(refused > 0 and accepted_n > 0, "no-lock returns stage: both outcomes must be exercised")
+    ctx.coverage["nolock_returns_stage"] = {"programs": len(cases), "must_be_refused": refused,
+                                            "must_be_accepted": accepted_n, **st}
+    ctx.coverage["evaluations"] += len(cases)
+
+
 def run_c17(ctx):
     import retgen
     accepted = [retgen.to_tuple(t) for t in json.load(open(os.path.join(common.ROOT, "gen", "accepted", "returns.json")))]
